@@ -16,7 +16,7 @@ def textCovered : List String :=
 
 theorem text_covered_types :
     textCovered = ["AFSDB", "AVC", "CDNSKEY", "CDS", "CNAME", "DHCID", "DLV", "DNAME", "DNSKEY", "DS", "EID", "GID", "KEY", "KX", "LP", "MB", "MD", "MF", "MG",
-      "MINFO", "MR", "MX", "NIMLOC", "NINFO", "NS", "NSAPPTR", "OPENPGPKEY", "PTR", "PX", "RESINFO", "RKEY", "RP", "RT", "SPF", "SRV",
+      "MINFO", "MR", "MX", "NIMLOC", "NINFO", "NS", "NSAPPTR", "OPENPGPKEY", "PTR", "PX", "RESINFO", "RKEY", "RP", "RT", "SOA", "SPF", "SRV",
       "SSHFP", "TA", "TALINK", "TLSA", "TXT", "UID", "X25", "ZONEMD"] := by
   decide
 
@@ -41,6 +41,7 @@ theorem fits_exist (P Q : List TStep) (h : matchPlans P Q = true) : ∃ vals val
     intro p q hk
     cases p <;> cases q <;> simp only [kindEq, Bool.false_eq_true] at hk
     · exact ⟨.n 0, by simp only [FieldWF]; exact Nat.two_pow_pos _⟩
+    · exact ⟨.n 0, by simp [FieldWF]⟩
     · exact ⟨.n 0, by simp [FieldWF]⟩
     · exact ⟨.s (presentOf []), ⟨[], by decide, rfl⟩⟩
   fun_induction matchPlans P Q
